@@ -33,8 +33,47 @@ def run(ctx):
     for _ in range(ctx.n(40000, 1500000)):
         strings.append(core.rand_vector("3", rng, p_absent=rng.choice([0.1, 0.4, 0.7])))
     ctx.extra["exhaustive_part"] = "all %d base vectors (2 minor versions x 2592)" % base_n
-    for i in range(0, len(strings), 100000):
-        scoring.check_scores(ctx, "3", strings[i:i + 100000], "v3")
+    for i in range(0, len(strings), 200000):
+        scoring.check_scores(ctx, "3", strings[i:i + 200000], "v3")
+    if ctx.tier == "thorough" and ctx.scale == 1:
+        # the whole quotient of the quantifier: 2 x 2592 x 100 base/temporal cases and 2 x 2592 x 27 x 48
+        # environmental cases (effective requirement x modified assignments), one spelling each
+        n = 0
+        for chunk in quotient_chunks(rng):
+            scoring.check_scores(ctx, "3", chunk, "v3-quotient")
+            n += len(chunk)
+        ctx.extra["exhaustive_part"] += "; the whole quotient: %d base/temporal + environmental cases" % n
+        ctx.exhaustive = True
 
 
-replay = scoring.replay_scores
+def quotient_chunks(rng, size=250000):
+    """the quotient named in the property's quantifier, one spelling per class:
+    2 x 2592 x 100 base/temporal cases (base assignment x temporal weights, X = top value) and
+    2 x 2592 x 27 x 48 environmental cases (effective modified assignment x requirements x temporal weights)"""
+    import itertools
+    V = VOCAB["3"]
+    buf = []
+    bases = list(enum.all_base("3"))
+    tfull = [V["legal"][m] for m in V["temporal"]]                       # 5 x 5 x 4 = 100 spellings
+    tcls = [[v for v in V["legal"][m] if v != "X"] for m in V["temporal"]]  # 4 x 4 x 3 = 48 weight classes
+    mand = V["mandatory"]
+    for pfx in core.PREFIX["3"]:
+        for a in bases:
+            body = "/".join("%s:%s" % (k, a[k]) for k in mand)
+            for e, rl, rc in itertools.product(*tfull):
+                buf.append("%s%s/E:%s/RL:%s/RC:%s" % (pfx, body, e, rl, rc))
+            # `a` read as the EFFECTIVE modified assignment: spelled through the base metrics (Modified absent)
+            # or through defined Modified metrics over a random base
+            if rng.random() < 0.5:
+                head = body
+            else:
+                b = core.rand_assignment("3", rng, optional=False)
+                head = "/".join("%s:%s" % (k, b[k]) for k in mand) + "/" + "/".join("M%s:%s" % (k, a[k]) for k in mand)
+            for cr, ir, ar in itertools.product("LMH", repeat=3):
+                for e, rl, rc in itertools.product(*tcls):
+                    buf.append("%s%s/CR:%s/IR:%s/AR:%s/E:%s/RL:%s/RC:%s" % (pfx, head, cr, ir, ar, e, rl, rc))
+            if len(buf) >= size:
+                yield buf
+                buf = []
+    if buf:
+        yield buf
